@@ -176,13 +176,17 @@ class TransformedTargetForecaster(
         self.check_is_fitted()
         self._update_y_X(y, X)
 
+        # as in `fit`, every step works on the output of the previous one
+        yt = y
         for step_idx, name, transformer in self._iter_transformers():
             if hasattr(transformer, "update"):
-                transformer.update(y, update_params=update_params)
+                transformer.update(yt, update_params=update_params)
                 self.steps_[step_idx] = (name, transformer)
+            if len(yt) > 0:
+                yt = transformer.transform(yt)
 
         name, forecaster = self.steps_[-1]
-        forecaster.update(y, update_params=update_params)
+        forecaster.update(yt, update_params=update_params)
         self.steps_[-1] = (name, forecaster)
         return self
 
